@@ -65,6 +65,7 @@ stateVars == <<h, seq, cseq, commits, receipts, acks, out, bind, ubal, wbal, rba
 (* values for SendFrom (configuration files cannot write tuples) *)
 AllSendFrom == Chains \X {"fwd", "back"}
 OneWay      == {<<"A", "fwd">>, <<"B", "back">>}     \* A's token travels to B and back
+FwdFromA    == {<<"A", "fwd">>}                      \* only A sends (packets from B are those nested in receives)
 
 Others(c) == Chains \ {c}
 T(p)      == <<p.src, p.dst, p.seq>>
@@ -78,6 +79,9 @@ CallCode(q) == CASE q.call = "revert"   -> 3    \* endpoint: "execute call data 
                  [] q.call = "hookfail" -> 1    \* msg server: "receive packet callback failed"
                  [] q.call = "nestfail" -> IF q.amt > 1 THEN 1   \* a send nested in the callback fails (no client): the hook fails
                                            ELSE 3               \* nothing left to forward after the agent's fee of 1: the agent reverts
+                 (* the agent forwards what it received back to the source chain: a send nested in the receive.  Only a   *)
+                 (* forward transfer gives the agent something to forward (the replay generates no other combination)      *)
+                 [] q.call = "nestok"   -> IF q.kind = "fwd" THEN 0 ELSE 3
                   [] OTHER           -> 0
 
 Init ==
@@ -235,6 +239,9 @@ RecvAccept(c, q, k, pf, s) ==
   /\ q \in snaps[q.src][k + 1].commits
   /\ s = "relayer"
 
+Nested(q) == q.call = "nestok" /\ q.kind = "fwd"
+NestedPacket(c, q) == [Packet(c, q.src, seq[c][q.src], "back", q.amt, "none", 0) EXCEPT !.cb = "agent"]
+
 RecvEff(c, p, alt, k, pf, s) ==
   LET q    == Decoded(p, alt)
   IN IF ~RecvAccept(c, q, k, pf, s) THEN UNCHANGED stateVars
@@ -245,7 +252,8 @@ RecvEff(c, p, alt, k, pf, s) ==
      IN
      /\ receipts' = [receipts EXCEPT ![c] = @ \cup {T(q)}]
      /\ acks' = [acks EXCEPT ![c] = @ \cup {[t |-> T(q), code |-> code]}]
-     /\ IF okx /\ q.kind = "fwd"
+     /\ IF Nested(q) THEN UNCHANGED <<wbal, bind, ubal, out>>     \* minted to the agent and burnt by it
+        ELSE IF okx /\ q.kind = "fwd"
           THEN /\ wbal' = [wbal EXCEPT ![c][d] = @ + q.amt]
                /\ bind' = [bind EXCEPT ![c][d] = @ + q.amt]
                /\ UNCHANGED <<ubal, out>>
@@ -256,7 +264,17 @@ RecvEff(c, p, alt, k, pf, s) ==
         ELSE UNCHANGED <<wbal, bind, ubal, out>>
      /\ marks' = [marks EXCEPT ![c] = @ + (IF okx /\ q.call = "ok" THEN 1 ELSE 0)]
      /\ badrel' = [badrel EXCEPT ![c] = IF rot[c][d] THEN @ \cup {T(q)} ELSE @]     \* the ack names the address c's registry holds for chain d
-     /\ UNCHANGED <<h, seq, cseq, commits, rbal, held, status, clients, snaps, sent, rot>>
+     (* a send nested in the receive (agent): the tokens minted to the agent are burnt again and travel back as packet p2, *)
+     (* numbered and committed by the same rules as any send (CallEVM -> post-transaction hook -> SendPacket)             *)
+     /\ IF Nested(q)
+          THEN LET p2 == NestedPacket(c, q) IN
+               /\ seq'  = [seq  EXCEPT ![c][d] = @ + 1]
+               /\ cseq' = [cseq EXCEPT ![c][d] = @ + 1]
+               /\ commits' = [commits EXCEPT ![c] = @ \cup {p2}]
+               /\ status' = [status EXCEPT ![c] = (T(p2) :> 0) @@ @]
+               /\ sent' = sent \cup {p2}
+          ELSE UNCHANGED <<seq, cseq, commits, status, sent>>
+     /\ UNCHANGED <<h, rbal, held, clients, snaps, rot>>
 
 Recv(c, p, alt, k, pf, s) ==
   /\ RecvEff(c, p, alt, k, pf, s)
